@@ -426,6 +426,24 @@ Proof.
         -- intros _. exact Hx.
 Qed.
 
+(* ---- Create from a map under UpdateAll: exactly the named data columns are overwritten ------------------ *)
+Lemma mall_cols_mem ks c : In c [CName; CAge; CEmail; CDel] ->
+  existsb (col_eqb c) (mall_cols ks) = named ks c.
+Proof.
+  intros Hc. unfold named, mall_cols. induction ks as [|a ks IH]; [reflexivity|].
+  cbn [In] in Hc. destruct Hc as [<-|[<-|[<-|[<-|[]]]]]; destruct a; cbn; rewrite ?IH; reflexivity.
+Qed.
+Lemma moc_all_columns now ks ex old c : In c [CName; CAge; CEmail; CDel] ->
+  get_col c (moc_apply now RAll ks ex old) = if named ks c then get_col c ex else get_col c old.
+Proof.
+  intros Hc. cbn [moc_apply].
+  assert (Hu : col_eqb CUat c = false).
+  { cbn [In] in Hc. destruct Hc as [<-|[<-|[<-|[<-|[]]]]]; reflexivity. }
+  assert (G : get_col c (copy_cols (mall_cols ks) ex old) = if named ks c then get_col c ex else get_col c old).
+  { unfold copy_cols. rewrite copy_cols_get. unfold mem_col. now rewrite mall_cols_mem. }
+  destruct (named ks CUat); [rewrite with_uat_get by exact Hu|]; exact G.
+Qed.
+
 (* ---- all finishers ------------------------------------------------------------------------------------- *)
 Lemma sortedb_wf t : sortedb t = true -> wf t.
 Proof.
@@ -437,7 +455,7 @@ Qed.
 Theorem model_meets_spec t now ch f : wf t -> in_domain ch f = true ->
   spec_step t now ch f (obs_of_result (step_repo t now ch f)) = true.
 Proof.
-  intros Hwf D. destruct f as [v|ru v|ic|ic|vs|os v|ru b vs|ru tgt v|v|vs|ru v|i rg a q]; try discriminate D.
+  intros Hwf D. destruct f as [v|ru v|ic|ic|vs|os v|ru b vs|ru tgt v|ru ms|v|vs|ru v|i rg a q]; try discriminate D.
   - apply save_meets_spec, Hwf.
   - apply upsert_meets_spec, Hwf.
   - cbn [in_domain] in D. repeat (apply andb_prop in D; destruct D as [D ?]).
